@@ -362,22 +362,24 @@ class Sampler(BaseSampler, Module):
         f.write(vol.point_bytes)
         # uint16_t panning_points_old[ XI_ENV_POINTS * 2 ];
         f.write(pan.point_bytes)
+        # The *_old fields below are one byte wide; larger values are only
+        # representable in the envelope chunks (CHNM 0x102 and up).
         # uint8_t volume_points_num_old;
-        w.uint8(len(vol.points))
+        w.uint8(min(len(vol.points), 255))
         # uint8_t panning_points_num_old;
-        w.uint8(len(pan.points))
+        w.uint8(min(len(pan.points), 255))
         # uint8_t vol_sustain_old;
-        w.uint8(vol.sustain_point)
+        w.uint8(min(vol.sustain_point, 255))
         # uint8_t vol_loop_start_old;
-        w.uint8(vol.loop_start_point)
+        w.uint8(min(vol.loop_start_point, 255))
         # uint8_t vol_loop_end_old;
-        w.uint8(vol.loop_end_point)
+        w.uint8(min(vol.loop_end_point, 255))
         # uint8_t pan_sustain_old;
-        w.uint8(pan.sustain_point)
+        w.uint8(min(pan.sustain_point, 255))
         # uint8_t pan_loop_start_old;
-        w.uint8(pan.loop_start_point)
+        w.uint8(min(pan.loop_start_point, 255))
         # uint8_t pan_loop_end_old;
-        w.uint8(pan.loop_end_point)
+        w.uint8(min(pan.loop_end_point, 255))
         # uint8_t volume_type_old;
         w.uint8(vol.bitmask)
         # uint8_t panning_type_old;
